@@ -238,13 +238,15 @@ CHECKS["C06"] = dict(
     explanation="posix.PutObject (real code incl. tmpfile.Write/falloc/link, HashReader, io.Copy) on the file-system model: symbolic body bytes, an "
                 "arbitrary declared length, an arbitrary declared Content-MD5, new and existing key, both temp-file strategies, EOF delivered with or "
                 "after the last bytes. Oracle: commit implies digest match and declared = received = stored size and stored bytes = received bytes; "
-                "otherwise the key keeps its previous state.",
+                "otherwise the key keeps its previous state. Same for posix.UploadPart (new and already present part number; Content-MD5 or "
+                "x-amz-checksum-sha256; returned and stored ETag = MD5 of the bytes).",
     harnesses=[
         dict(name="H06-putobject", entry="backend/posix.VfUploadIntegrity", reach=["committed", "refused"], **_FS),
+        dict(name="H06-uploadpart", entry="backend/posix.VfUploadPartIntegrity", reach=["committed", "refused"], **_FS),
     ],
     assumptions=["file-system model (harness/tree/internal/zzvfos): atomic namespace operations, xattrs as per-inode map, no spontaneous I/O errors",
-                 "MD5 is an uninterpreted function"],
-    outside=["bodies longer than the byte bound", "UploadPart (same code shape; not yet a separate harness)", "checksum (x-amz-checksum-*) variants", "chunk/trailer signatures (C12)"],
+                 "MD5 / SHA-256 are uninterpreted functions (equal inputs give equal digests; distinct inputs may collide)"],
+    outside=["bodies longer than the byte bound", "checksum variants other than x-amz-checksum-sha256 on UploadPart; Content-MD5 and a checksum header on the same request", "chunk/trailer signatures (C12)"],
 )
 
 CHECKS["C01"] = dict(
